@@ -96,11 +96,44 @@ class Module:
         if not os.environ.get("OCTACHECK_NO_INLINE"):
             self._inline_new_helpers()
             self._tuple_view_of_new_namedtuples()
+            self._split_parallel_assignments()
         # locals the rules read by name are given their expected names in this parsed copy (octacheck.localnames); no-op on a
         # tree that already uses them
         from .localnames import canonicalise_module
 
         self.renamed_locals = canonicalise_module(self.name, self.functions)
+
+    def _split_parallel_assignments(self) -> None:
+        """in functions into which a helper was read: `a, b = x, y` with plain-name targets none of which is read on the right is
+        the sequence `a = x; b = y` (what a helper's `return x, y` / record constructor becomes at its call site)"""
+        for q in self.inlined_helpers:
+            fi = self.functions.get(q)
+            if fi is None:
+                continue
+            changed = False
+            for parent in list(ast.walk(fi.node)):
+                for f in ("body", "orelse", "finalbody"):
+                    blk = getattr(parent, f, None)
+                    if not (isinstance(blk, list) and blk and isinstance(blk[0], ast.stmt)):
+                        continue
+                    out: list[ast.stmt] = []
+                    for st in blk:
+                        if isinstance(st, ast.Assign) and len(st.targets) == 1 and isinstance(st.targets[0], ast.Tuple) and isinstance(st.value, ast.Tuple) and len(st.value.elts) == len(st.targets[0].elts) and all(isinstance(t, ast.Name) for t in st.targets[0].elts) and not any(isinstance(e, ast.Starred) for e in st.value.elts):
+                            tn = {t.id for t in st.targets[0].elts}  # type: ignore[attr-defined]
+                            if len(tn) == len(st.targets[0].elts) and not any(isinstance(x, ast.Name) and x.id in tn for e in st.value.elts for x in ast.walk(e)):
+                                for t, e in zip(st.targets[0].elts, st.value.elts):
+                                    a = ast.Assign(targets=[t], value=e)
+                                    ast.copy_location(a, st)
+                                    ast.fix_missing_locations(a)
+                                    out.append(a)
+                                changed = True
+                                continue
+                        out.append(st)
+                    setattr(parent, f, out)
+            if changed:
+                for parent in ast.walk(fi.node):
+                    for child in ast.iter_child_nodes(parent):
+                        child._parent = parent  # type: ignore[attr-defined]
 
     def _tuple_view_of_new_namedtuples(self) -> None:
         """NamedTuple classes the pinned tree does not have are read as the plain tuples they are (octacheck.records)"""
@@ -114,7 +147,7 @@ class Module:
         known_classes = set(str(known.get("<classes>", "")).split())
         # (not classes that are instantiated at module level - rows of a constant table: those are read as records where they
         # are used, e.g. by the type-table clause of R04.4 / R08.4)
-        module_level_calls = {n.func.id for st in self.tree.body if not isinstance(st, (ast.FunctionDef, ast.AsyncFunctionDef, ast.ClassDef)) for n in ast.walk(st) if isinstance(n, ast.Call) and isinstance(n.func, ast.Name)}
+        module_level_calls = {n.func.id for st in self.tree.body if not isinstance(st, (ast.FunctionDef, ast.AsyncFunctionDef, ast.ClassDef)) for n in walk_no_nested(st) if isinstance(n, ast.Call) and isinstance(n.func, ast.Name)}
         new_nt = {c: ci.node for c, ci in self.classes.items() if c not in known_classes and c not in module_level_calls and any(ast.unparse(b).split(".")[-1] == "NamedTuple" for b in ci.node.bases) and not any(isinstance(m, ast.FunctionDef) for m in ci.node.body)}
         if new_nt:
             self.tuple_views = tuple_view(self.tree, new_nt)
@@ -152,6 +185,10 @@ class Module:
         if not new:
             return
         new_names = {self.functions[q].name for q in new}
+        # calls through a constant table of new helpers are read as the if/elif chain they abbreviate (octacheck.dispatch)
+        from .dispatch import desugar_dispatch
+
+        self.desugared_dispatch = desugar_dispatch(self.tree, new_names)
         for q, fi in list(self.functions.items()):
             if fi.parent_func is not None:
                 continue  # (new helpers are read in place inside other new helpers too; a helper is never inlined into itself)
